@@ -9,6 +9,7 @@ import Driver.FlogOps
 import Driver.GateOps
 import Driver.BlockOps
 import Driver.NJOps
+import Driver.AnnOps
 /-
   Line-protocol driver: one operation per input line, one canonical result line per operation.
   Imports Model only (core Lean), so it links as a `lean_exe`.
@@ -19,6 +20,7 @@ structure St where
   mgr : Dvid.Manager.State := Dvid.Manager.init
   ids : Driver.IdSt := {}
   blk : Dvid.Block.Block := Driver.emptyBlock
+  ann : Dvid.Ann.St := Dvid.Ann.init
 
 def step (st : St) (line : String) : St × String :=
   let w := words line
@@ -54,6 +56,9 @@ def step (st : St) (line : String) : St × String :=
   | none =>
   match njOps w with
   | some r => (st, r)
+  | none =>
+  match annOps st.ann w with
+  | some (a, r) => ({ st with ann := a }, r)
   | none => (st, "bad-op")
 
 partial def loop (h : IO.FS.Stream) (out : IO.FS.Stream) (st : St) : IO Unit := do
